@@ -45,6 +45,8 @@ struct C05 : Scenario {
         c.padding = r.pick(std::vector<double>{2, 4, 8});
         c.roundpad = r.chance(0.7);
         if (r.chance(0.5)) { c.shiftx = r.chance(0.5) ? (double)r.range(-3, 3) : std::round(r.uniform(-3, 3) * 4) / 4; c.shifty = r.chance(0.5) ? (double)r.range(-3, 3) : 0; }
+        // larger shifts of the energy axis (up to an eighth of the grid; the bunch stays 4 sigma clear of the nearer border)
+        if (r.chance(0.2)) { c.shifty = (double)r.range(4, c.grid / 8) * (r.chance(0.5) ? 1 : -1); if (r.chance(0.5)) c.shiftx = c.shifty; }
         int kind = (int)r.range(0, 3);
         p.seti("kind", kind);
         if (kind == 0) { c.gap = 0.03; c.currents = {r.loguniform(0.2e-3, 1.5e-3)}; }
